@@ -68,7 +68,29 @@ func c17Run(c *Ctx) {
 			spec = specs[3]
 		}
 		desc = spec.Name
-	case kind < 13:
+	case kind == 12:
+		// linear-algebra roles of a shared weight: vector x matrix, matrix x vector,
+		// batched x matrix, vector x batched matrix, Gemm with a transposed weight
+		k, n := r.Range(2, 6), r.Range(2, 6)
+		W := numTensor(r, ref.F32, []int{k, n})
+		var req mon.OpReq
+		mask := uint64(2)
+		switch r.Intn(5) {
+		case 0:
+			req = mon.OpReq{Op: "MatMul", Inputs: []*ref.T{numTensor(r, ref.F32, []int{k}), W}}
+		case 1:
+			req, mask = mon.OpReq{Op: "MatMul", Inputs: []*ref.T{W, numTensor(r, ref.F32, []int{n})}}, 1
+		case 2:
+			req = mon.OpReq{Op: "MatMul", Inputs: []*ref.T{numTensor(r, ref.F32, []int{r.Range(1, 3), r.Range(1, 4), k}), W}}
+		case 3:
+			req = mon.OpReq{Op: "MatMul", Inputs: []*ref.T{numTensor(r, ref.F32, []int{k}), numTensor(r, ref.F32, []int{r.Range(2, 3), k, n})}}
+		default:
+			req = mon.OpReq{Op: "Gemm", Inputs: []*ref.T{numTensor(r, ref.F32, []int{r.Range(1, 4), n}), W, numTensor(r, ref.F32, []int{k})}, Attrs: []*mon.Attr{mon.AttrI("transB", 1)}}
+			mask = 6
+		}
+		spec = specFromOpReq(r, req, mask)
+		desc = trunc(req.Describe(), 300)
+	case kind < 12:
 		// single-node models from the per-operator generators, rotating over all 55
 		// operators; usually every input (also the data operand) is a shared weight
 		name := c15Names[(c.Idx+int(c.Seed))%len(c15Names)]
@@ -145,6 +167,7 @@ func c17Run(c *Ctx) {
 	for name, t := range m.VerifParameters() {
 		weights[name] = mon.Fp(t)
 	}
+	protoFp := mon.ProtoFingerprint(m)
 	var px *mon.Proxy
 	var orderMu sync.Mutex
 	var order []string
@@ -252,6 +275,9 @@ func c17Run(c *Ctx) {
 		if same, what := weights[name].Equal(mon.Fp(t)); !same {
 			c.Violation("concurrent:weight-modified", "weight %q changed during concurrent Runs: %s | %s", name, what, trunc(desc, 300))
 		}
+	}
+	if mon.ProtoFingerprint(m) != protoFp {
+		c.Violation("concurrent:model-proto-modified", "the decoded model (node attributes, attribute tensors, initializer protos) changed during concurrent Runs | %s", trunc(desc, 300))
 	}
 	for i, f := range fails {
 		if i >= 3 {
